@@ -86,6 +86,19 @@ CLAIMED["C11"] = dict(
          "created at run time live in per-tick scratch memory on WASM). Effects of equal-time tasks commute by construction.",
     technique="TLA+ mechanism model checked with TLC for all bounded task configurations; configurations replayed on both runtimes",
 )
+CLAIMED["C13"] = dict(
+    category="model_checking",
+    text="LexGen.tla makes TLC enumerate every string up to a length bound over an alphabet of character classes (letters, digits, "
+         "dots, quotes, comment starters, operators, brackets, line breaks, 2- and 4-byte characters); the real tokenize / preparse / "
+         "parse_cst run on each and LexTrace.tla validates the recorded result: the lexer as a state machine consuming the text "
+         "(start = position, positive length, character boundaries, one end marker at the end), the CST leaves equal to the syntax "
+         "tokens in order, every trivia token attached to exactly one adjacent syntax token. Shipped sources, all prefixes of "
+         "some, random and mutated Unicode texts go through the same trace specification.",
+    design_ref="DESIGN.md §6 C13",
+    note="No hook needed (the public API returns everything). Pinned class: trivia before the first syntax token that contains a "
+         "line break is dropped by preparse (the formatter compensates); trivia attachment is not judged for texts of that class.",
+    technique="TLC-enumerated inputs; trace validation of the real lexer/parser output against a TLA+ lexer/CST specification",
+)
 NOT_YET = {}
 
 checks = []
